@@ -282,7 +282,8 @@ func (s *state) walk(node parse.Node) error {
 		}
 		if CoerceBool(v) {
 			return s.walk(node.Body)
-		} else {
+		} else if node.Else != nil {
+			// The condition of "for ... if" is an IfNode without an else branch.
 			return s.walk(node.Else)
 		}
 	case *parse.IncludeNode:
